@@ -18,6 +18,10 @@ func (c *WebserverConfig) verify() error {
 	if c.Listen.Read() == "" {
 		return fmt.Errorf("webserver.listen cannot be empty")
 	}
+	if c.ApiDisabled.Read() && !c.DashboardDisabled.Read() {
+		// the dashboard is a client of the API; start-up refuses this combination (and panics)
+		return fmt.Errorf("webserver.api_disabled requires webserver.dashboard_disabled")
+	}
 	return nil
 }
 
